@@ -57,6 +57,65 @@ class ExtFn(StandIn):
         return impl(*a, **k)
 
 
+def isinstance_names(call, args):
+    """class names tested by an isinstance(x, C) call: from the evaluated second argument when it is a class value (or a
+    tuple of them, e.g. a loop variable over a dispatch table), otherwise from the source"""
+    def names_of(v):
+        if isinstance(v, Obj) and str(v).startswith("class:"):
+            return [str(v)[6:]]
+        if isinstance(v, type):
+            return [v.__name__]
+        if isinstance(v, (tuple, list)):
+            out = []
+            for x in v:
+                n = names_of(x)
+                if n is None:
+                    return None
+                out += n
+            return out
+        return None
+    if len(args) > 1:
+        n = names_of(args[1])
+        if n is not None:
+            return n
+    c = call.args[1]
+    if isinstance(c, ast.Name):
+        return [c.id]
+    if isinstance(c, ast.Tuple):
+        return [e.id for e in c.elts if isinstance(e, ast.Name)]
+    return []
+
+
+class ObjMethod(StandIn):
+    """`obj.method` read as a value on an abstract object (dispatch tables `{Cls: self.method}`): calling it is
+    answered by the rule's hook exactly like the direct call `obj.method(...)`"""
+
+    def __init__(self, runner, obj, name):
+        self._runner, self._obj, self._name = runner, obj, name
+
+    def __repr__(self):
+        return f"{self._obj}.{self._name}"
+
+    def __call__(self, *args, **kwargs):
+        rn = self._runner
+        node = ast.Call(func=ast.Attribute(value=ast.Name(id="self", ctx=ast.Load()), attr=self._name, ctx=ast.Load()),
+                        args=[], keywords=[])
+        if rn.user_hook:
+            r = rn.user_hook(rn, None, node, self._name, self._obj, list(args), kwargs)
+            if r is not NotImplemented:
+                return r
+        # a helper method defined by exactly one repository class: interpret its body on the stand-in receiver
+        cands = [ms[self._name] for ms in rn.ctx.model.methods.values()
+                 if self._name in ms and ms[self._name].kind == "method"]
+        if len(cands) == 1 and rn.depth < 6:
+            rn.depth += 1
+            try:
+                return rn.call_fn(cands[0], [self._obj] + list(args), kwargs)
+            finally:
+                rn.depth -= 1
+        raise Undecided(f"call of {self._obj}.{self._name} through a method value")
+
+
 class RepoFnValue(StandIn):
     """a function of the repository used as a value (`f = IntegratePlanar.vertical; f(x)`): calling it is answered
     exactly like the direct call `IntegratePlanar.vertical(x)` (rule hook first, then the function's body)"""
@@ -187,9 +246,16 @@ class Runner:
                 m = self.ctx.model.methods.get(base._name[6:], {}).get(node.attr)
                 if m is not None and m.kind in ("static", "class"):
                     return RepoFnValue(self, base, m)
+            plain = node.attr
+            if not base._name.startswith("class:") and any(
+                    plain in ms and ms[plain].kind == "method" for ms in self.ctx.model.methods.values()):
+                return ObjMethod(self, base, plain)          # a method of some repository class, read as a value
             raise Undecided(f"attribute {node.attr} of abstract object {base}")
         if isinstance(base, StandIn) and hasattr(base, node.attr):
             return getattr(base, node.attr)
+        if isinstance(base, StandIn) and not isinstance(getattr(node, "ctx", None), ast.Store) and any(
+                node.attr in ms and ms[node.attr].kind == "method" for ms in self.ctx.model.methods.values()):
+            return ObjMethod(self, base, node.attr)              # e.g. self.__contains_simple in a dispatch table
         if isinstance(base, tuple) and hasattr(base, node.attr):
             return getattr(base, node.attr)
         return NotImplemented
